@@ -483,12 +483,13 @@ def run_table(spec: Dict[str, Any]) -> Dict[str, Any]:
                 if not wanted(desc):
                     continue
                 r = one(None, (key, dmg), "pre", what, desc)
-                if dmg == "json-empty":
-                    r["violations"] = []          # damage that still parses: recorded, not judged
-                    r["not_judged"] = True
-                elif not r["real"]["raised"] and not protection_kept(r["real"], reach, live):
+                # "json-empty" (the file now holds `{}`): a JSON object without the `manifests` / `files` section is not a list /
+                # manifest without entries -- it does not parse as a list / manifest at all: judged like every other class
+                if not r["real"]["raised"] and not protection_kept(r["real"], reach, live):
+                    gone = sorted((set(r["before"]) - set(r["after"])) & (reach | live))
                     r["violations"].append({"key": f"damage-not-detected:{dmg}:{role}", "desc": desc,
-                                            "what": f"reachable {role} {key} damaged ({dmg}) and the collection completed"})
+                                            "what": f"reachable {role} {key} damaged ({dmg}) and the collection completed with reachable / live files "
+                                                    f"missing from its keep sets, deleting {gone[:4]} ({len(gone)} reachable / live file(s) in all)"})
                 out["runs"].append(r)
                 out["stats"]["damage_runs"] += 1
         # ---- byte-level damage anywhere in the file: single-byte flips and truncations (header, block framing, EVERY record,
@@ -570,22 +571,33 @@ def run_table(spec: Dict[str, Any]) -> Dict[str, Any]:
                 r["doc"]["model_error"] = f"{type(e).__name__}: {e}"[:200]
             out["stats"]["doc_damage_runs"] = out["stats"].get("doc_damage_runs", 0) + 1
             gone = sorted((set(r["before"]) - set(r["after"])) & (reach | live))
-            legacy_section = (fmt == "json" and role != "current-metadata" and len(op["path"]) == 1
-                              and (op["op"] == "drop" or (op["op"] == "retype" and op["value"] in ("", {}))))
-            if legacy_section:
-                # the legacy JSON fallback reads a document WITHOUT its `manifests` / `files` section (or with an empty object /
-                # string there) as an EMPTY list / manifest: the interpretation already recorded for `{}` (json-empty)
-                r["violations"], r["not_judged"] = [], True
-                out["stats"]["doc_legacy_json_section_lost_reads_empty_not_judged"] = out["stats"].get("doc_legacy_json_section_lost_reads_empty_not_judged", 0) + 1
-            elif op["op"] in ("empty", "zero-records"):
+            # A legacy JSON list / manifest that LOST its `manifests` / `files` section (key dropped, null, or anything but a list
+            # there) is not a list / manifest without entries: the document no longer says what the snapshot consists of --
+            # unparseable as a list / manifest, judged like every other drop / null / retype.
+            # A value emptied in place, an array that lost an element, an Avro container without records is a well-formed
+            # document that says something else: not judged -- UNLESS the document contradicts itself afterwards: a metadata
+            # file whose current_snapshot_id names none of the snapshots it still lists (`snapshots: []`, the current snapshot
+            # gone from the list) cannot be trusted about its snapshots (commits and reads refuse it as inconsistent).
+            says_something_else = op["op"] in ("empty", "zero-records", "drop-item")
+            dangling = False
+            if role == "current-metadata" and says_something_else:
+                try:
+                    dangling = docdamage.dangling_current(json.loads(doc_damaged_bytes(open(os.path.join(root, key), "rb").read(), dict(op, doc=fmt))))
+                except Exception:  # noqa: BLE001
+                    dangling = False
+                if dangling:
+                    out["stats"]["doc_dangling_current_judged"] = out["stats"].get("doc_dangling_current_judged", 0) + 1
+            if says_something_else and not dangling:
                 r["violations"], r["not_judged"] = [], True
                 out["stats"]["doc_emptied_in_place_not_judged"] = out["stats"].get("doc_emptied_in_place_not_judged", 0) + 1
                 if gone:
                     out["stats"]["doc_emptied_in_place_deleted_reachable"] = out["stats"].get("doc_emptied_in_place_deleted_reachable", 0) + 1
             elif not r["real"]["raised"] and not protection_kept(r["real"], reach, live):
+                why = (f"its current_snapshot_id names none of the snapshots it lists after {lab} at {'/'.join(map(str, op['path']))}"
+                       if dangling else f"its key path {'/'.join(map(str, op['path']))} was damaged ({lab})")
                 r["violations"].append({"key": f"doc-damage-not-detected:{lab}:{role}:{pl}", "desc": desc,
-                                        "what": f"{role} #{ordinal} ({key}, {size}) is still well-formed {fmt.upper()} but its key path "
-                                                f"{'/'.join(map(str, op['path']))} was damaged ({lab}): the collection completed with reachable / live "
+                                        "what": f"{role} #{ordinal} ({key}, {size}) is still well-formed {fmt.upper()} but {why}: "
+                                                f"the collection completed with reachable / live "
                                                 f"files missing from its keep sets, deleting {gone[:4]} ({len(gone)} reachable / live file(s) in all)"})
             out["runs"].append(r)
 
@@ -899,7 +911,7 @@ def doc_correspondence(ctx, recs: List[Tuple[Dict[str, Any], Dict[str, Any]]], p
             continue
         ext = f"(fun _ _ => {'true' if m['ext'] else 'false'})"
         if m["kind"] == "metadata":
-            stage_a.append(f"render_decode {ext} {m['term']}")
+            stage_a.append(f"render_collect_decision {ext} {m['term']}")
         else:
             stage_a.append(f"content_code ({DOC_CONTENT[m['kind']]} {ext} {m['term']})")
         idx_a.append((ri, run))
@@ -918,12 +930,14 @@ def doc_correspondence(ctx, recs: List[Tuple[Dict[str, Any], Dict[str, Any]]], p
         code, strs = int(va[0]), list(va[1])
         pspec = {k: spec[k] for k in spec if k != "base"}
         if m["kind"] == "metadata":
+            # code 0: the reader refuses the document; 1: the collection runs on these lists; 2: the reader accepts it and the
+            # collector refuses it (its current_snapshot_id names none of the snapshots it lists)
             n_decode += 1
             real = m["real_decode"]
-            if [code, strs] != [real[0], list(real[1])]:
+            if [min(code, 1), strs] != [real[0], list(real[1])]:
                 bad_decode.append({"spec": pspec, "damage": run["what"], "op": run["doc"]["op"], "library": real, "model": [code, strs]})
-            if code == 0:
-                run["doc"]["expect"] = "refused"
+            if code in (0, 2):
+                run["doc"]["expect"] = "refused" if code == 0 else "refused-by-collector"
                 idx_b.append((ri, run, None))
                 continue
             expr = gcsim.gc_expr(mm["tp"], mm["grace"], mm["now_ms"], TIMEOUT_MS, [], strs, f"base{ri}")
@@ -949,7 +963,10 @@ def doc_correspondence(ctx, recs: List[Tuple[Dict[str, Any], Dict[str, Any]]], p
         real = run["real"]
         gone = {k for k in set(run["before"]) - set(run["after"]) if not k.startswith(gcsim.INFLIGHT + "/")}
         if bi is None:
-            d = [] if real["raised"] and not gone else [f"model: the reader refuses the document (raise, nothing deleted); code: raised={real['raised']} deleted={sorted(gone)[:4]}"]
+            who = "the collector refuses the document (dangling current_snapshot_id)" if run["doc"].get("expect") == "refused-by-collector" else "the reader refuses the document"
+            d = [] if real["raised"] and not gone else [f"model: {who} (raise, nothing deleted); code: raised={real['raised']} deleted={sorted(gone)[:4]}"]
+            if not d and run["doc"].get("expect") == "refused-by-collector" and not real.get("aborted_type_ok"):
+                d = [f"model: {who} with GarbageCollectionAborted; code raised {real.get('exc_type')}"]
         else:
             model = gcsim.parse_render(vals_b[bi])
             if model["out"] in (1, 2):
@@ -990,7 +1007,7 @@ def run_campaign(ctx) -> None:
         ex.shutdown(wait=False, cancel_futures=True)
     ctx.stats["campaign_wall_s"] = round(time.time() - t0, 1)
     agg = {"tables": len(specs), "storage_calls_per_collection": [], "fault_runs": 0, "damage_runs": 0, "raised": 0, "absorbed_or_completed": 0,
-           "refresh_fault_runs": sum(r.get("runs", 0) for r in rres), "not_judged_parses_as_empty": 0}
+           "refresh_fault_runs": sum(r.get("runs", 0) for r in rres), "not_judged_still_parses_to_other_records": 0}
     for sp, r in zip(specs, rres):
         if "harness_error" in r:
             ctx.proof_problems.append("refresh-fault harness raised: " + r["harness_error"][-600:])
@@ -1030,7 +1047,7 @@ def run_campaign(ctx) -> None:
         agg["damage_runs"] += res["stats"]["damage_runs"]
         for k2 in ("byte_damage_runs", "stream_fault_runs", "still_parses_not_judged", "stream_faults_undetectable_short_read", "timeouts",
                    "doc_damage_runs", "doc_emptied_in_place_not_judged", "doc_emptied_in_place_deleted_reachable",
-                   "doc_legacy_json_section_lost_reads_empty_not_judged"):
+                   "doc_dangling_current_judged"):
             agg[k2] = agg.get(k2, 0) + res["stats"].get(k2, 0)
         agg.setdefault("records_per_list", []).append(res.get("shape", {}).get("lists"))
         agg.setdefault("records_per_manifest", []).append(res.get("shape", {}).get("manifests"))
@@ -1122,7 +1139,7 @@ def run_campaign(ctx) -> None:
             if run["damage"] is None or run.get("pointer_plane") or run.get("no_model"):
                 continue
             if run.get("not_judged"):
-                agg["not_judged_parses_as_empty"] += 1
+                agg["not_judged_still_parses_to_other_records"] += 1
             exprs.append(gcsim.gc_expr(m["tp"], m["grace"], m["now_ms"], TIMEOUT_MS, [], m["snaps"], run["store"]))
             druns.append((ri, run))
     try:
